@@ -514,7 +514,7 @@ def make_machine(ctx, stt):
 
 def shard(ctx: Ctx) -> None:
     stt = ctx.stats
-    n = 150 if ctx.tier == "quick" else 2000
+    n = 600 if ctx.tier == "quick" else 2000
     steps = 30 if ctx.tier == "quick" else 50
     try:
         ctx.run_machine(make_machine(ctx, stt), n, steps)
